@@ -11,6 +11,27 @@ INVS = ["TypeOK", "NoLostWakeup", "TokenImpliesRegistered"]
 ACTIONS = ["N_Register", "W_LoopRead", "W_Check", "N_Yield", "N_Sleep", "N_Park", "P_Publish", "N_Notify"]
 
 
+def scheduler_stage(ctx):
+    """The notifier call sites (scheduler.rs: validation end, finality publish and batch end, commit publish, abort)
+    are part of the property: a waiter's condition must never become true without a notification that reaches it.
+    Grevm.tla guards GNotifyFin / GNotifyCom / GNotifyBatch / GNotifyCancel: each counterexample (a parked coordinator
+    nobody wakes: deadlock, the model has no stall timer) is replayed on the real scheduler, where the controller never
+    fires the stall timer either; every recorded run is validated against the specification."""
+    import sched_engine as se
+    quick = ctx.quick()
+    for g, b in (("GNotifyFin", "tiny2"), ("GNotifyCom", "tiny2"), ("GNotifyBatch", "chain2"), ("GNotifyCancel", "fatal_in_order2")):
+        w = se.witness(ctx, g, b, invariants=("TypeOK",), regenerate=False)
+        ctx.guards[g] = (f"load-bearing on {b}: {w['invariant']} at depth {w['depth']}" if w["found"] else f"no counterexample on {b}")
+        if not w["found"]:
+            raise ToolError(f"vacuity: without {g} no coordinator is stranded on {b}")
+        se.replay_witness(ctx, w, "C17", also=("C05",), extra_runs=4 if quick else 30)
+    names = ["chain2", "rmw3", "dd3", "fatal_in_order2", "stale_fatal2", "grow_shrink3"]
+    for workers in (1, 2, 3):
+        r, out, args = se.controlled(ctx, names, 25 if quick else 1500, workers=workers, tag=f"sched_w{workers}")
+        se.report(ctx, r, args, "C17", also=("C05",))
+        se.validate(ctx, r, out, f"sched_trace_w{workers}", workers=workers)
+
+
 def run(ctx):
     # 1. the design: exhaustive safety + liveness, no stall timer in the model
     res = ctx.tlc("WaitSlot", "mc", constants=CONSTS, invariants=INVS,
@@ -62,12 +83,7 @@ def run(ctx):
         if r["trace_runs"]:
             ok, where, tres = ctx.validate_trace("WaitSlotTrace", out, f"trace_{k}", CONSTS,
                                                  invariants=INVS + ["RunsEndReturned"])
-            if not ok:
-                if tres["invariant"]:
-                    ctx.violation(f"invariant {tres['invariant']} fails on a recorded WaitSlot run",
-                                  {"kind": "wait_trace", "args": args, "trace": out, "at": where})
-                else:
-                    raise ToolError(f"conformance drift: WaitSlot trace not a behaviour of WaitSlot.tla: {where}")
+            ctx.trace_verdict(ok, where, tres, "WaitSlotTrace", out, CONSTS, INVS + ["RunsEndReturned"], "WaitSlot.tla")
             ctx.traces += r["trace_runs"]
             ctx.trace_events += r["trace_events"]
             first_trace = first_trace or out
@@ -84,6 +100,7 @@ def run(ctx):
             if ok:
                 raise ToolError(f"binding demonstration failed: trace with {what} was accepted")
         ctx.notes["binding_demo"] = demo
+    scheduler_stage(ctx)
     ctx.assumptions += [
         "std::thread park/unpark token semantics (modelled by GToken); the stall timer never fires under the controller",
         "sequentially consistent memory; the production WaitSlot is driven by harness threads that follow the coordinator protocol of scheduler.rs",
